@@ -167,15 +167,32 @@ def check_packing(ctx, spec, df, X, npart, p, tag, baseline):
         tb = traceback.format_exc()
         name = type(e).__name__
         key = keys_of(df, p)
-        # Dask's limit: equal keys cannot be split, nor k distinct keys into more than k parts
-        tied = len(set(key.values())) < len(key) or len(set(key.values())) < req
+        # Dask's limit: equal keys cannot be split, and n partitions need n + 1 distinct
+        # division values taken from the keys
+        tied = len(set(key.values())) < len(key) or len(set(key.values())) <= req
         if len(set(key.values())) <= 1 and req > 1:
             # all rows share one key and several partitions were requested: nothing claimed
             rep.count('unclaimed:' + name)
             ctx['unclaimed'].append(name)
             return None
+        try:
+            # the input is itself a packed frame whose .npartitions echoes a request that
+            # Dask did not meet (known class 'partition-count'): the decision to repartition
+            # is then taken on a count that is not real
+            lying_input = X.npartitions != len(X.to_delayed())
+        except Exception:
+            lying_input = False
+        try:
+            # Dask's set_index itself (approximate quantile divisions on a tiny frame) delivers
+            # fewer real partitions than its .npartitions reports: the same mechanism
+            si = X._with_hilbert_distance_column(p).set_index(
+                'hilbert_distance', npartitions=req, shuffle_method='tasks')
+            lying_set_index = len(si.divisions) - 1 != si.npartitions
+        except Exception:
+            lying_set_index = False
         if isinstance(e, AssertionError) and not (
-                '_repartition.py' in tb and '_partitions_boundaries' in tb and tied):
+                '_repartition.py' in tb and '_partitions_boundaries' in tb
+                and (tied or lying_input or lying_set_index)):
             name = 'AssertionError-elsewhere'   # only Dask's RepartitionToFewer on tied keys is known
         rep.violation(f'compute-raises:{name}',
                       f'pack_partitions(npartitions={npart}, p={p}) returned a frame whose '
